@@ -389,7 +389,7 @@ def jobs(tier):
                           [lambda x, c, style_i, impl_i, anch, tag_i, sk, flow, ver, canonical, allow_unicode, width, _st=st, _sk=sk:
                            style_i == _st and sk == _sk and len(x) <= XL and c == 'c' and (impl_i == 0 if q else 0 <= impl_i <= 3) and not anch and tag_i == 0 and not flow
                            and not ver and not canonical and width == 80],
-                          budget=150 if q else 1200, exhaust=q,
+                          budget=360 if q else 1200, exhaust=q,
                           bounds='scalar value len<=%d over all code points, requested style %r, skeleton %d, allow_unicode both' % (XL, STYLE_REQ[st], sk)))
     # tags: 7 kinds with a free character, anchors, implicit pairs
     for tg in range(7):
@@ -399,7 +399,7 @@ def jobs(tier):
                            tag_i == _t and x == 'v' and len(c) == 1 and c < '\x80' and (style_i == 0 if (q and _t >= 4) else (style_i == 0 or style_i == 3)) and 0 <= impl_i <= 3 and
                            sk == _k and not flow and (not ver if q else True) and (not anch if q else True)
                            and not canonical and width == 80 and allow_unicode],
-                          budget=150 if q else 1200,
+                          budget=360 if q else 1200,
                           bounds='tag kind %d with one free ASCII character x 4 implicit pairs, skeleton %d' % (tg, tsk)))
         if tg >= 4:
             js.append(Job('tag-nonascii/kind%d' % tg, one_scalar_nonascii,
